@@ -166,7 +166,8 @@ func init() {
 }
 
 func isStructuralRule(rule string) bool {
-	return strings.HasPrefix(rule, "externalVolume:") || strings.HasPrefix(rule, "secretSources:") || strings.HasPrefix(rule, "configSources:")
+	return strings.HasPrefix(rule, "externalVolume:") || strings.HasPrefix(rule, "secretSources:") || strings.HasPrefix(rule, "configSources:") ||
+		strings.HasPrefix(rule, "deviceRequest:") || strings.HasPrefix(rule, "watchPath:")
 }
 
 func runC10Glue(ctx *core.Ctx) {
